@@ -1171,6 +1171,9 @@ func Sleep(point string, d time.Duration) {
 	Select(point, false, RecvCase(t.C))
 }
 
+// TimeSleep replaces time.Sleep in rewritten code (R13).
+func TimeSleep(d time.Duration) { Sleep("time.Sleep", d) }
+
 // CurrentName returns the name of the calling controlled goroutine ("" if
 // uncontrolled).
 func CurrentName() string {
